@@ -305,7 +305,7 @@ theorem echoOf_grows (s : State) (text : List Byte) : ∃ e, echoOf s text = s.e
   · exact ⟨[], by simp⟩
 
 theorem atExec_grows (s : State) : Grows s (atExec s) :=
-  ⟨⟨[], rfl⟩, fun h => by simp [atExec, h], echoOf_grows s _⟩
+  ⟨⟨[], rfl⟩, fun h => by simp [atExec, h], echoOf_grows s _, rfl⟩
 
 theorem loop_grows (n : Nat) (s : State) (log : List Iter) : Grows s (loop n s log).1 := by
   induction n generalizing s log with
@@ -313,9 +313,9 @@ theorem loop_grows (n : Nat) (s : State) (log : List Iter) : Grows s (loop n s l
   | succ n ih =>
     simp only [loop]
     split
-    · exact ⟨⟨[], rfl⟩, fun h => by simp [h], echoOf_grows s _⟩
-    · exact ⟨⟨[], rfl⟩, id, echoOf_grows s _⟩
-    · exact ⟨⟨[], rfl⟩, id, echoOf_grows s _⟩
+    · exact ⟨⟨[], rfl⟩, fun h => by simp [h], echoOf_grows s _, rfl⟩
+    · exact ⟨⟨[], rfl⟩, id, echoOf_grows s _, rfl⟩
+    · exact ⟨⟨[], rfl⟩, id, echoOf_grows s _, rfl⟩
     · split
       · split
         · exact (atExec_grows s).trans (runK_grows _ _ _)
@@ -378,7 +378,7 @@ theorem prefix_monotone_state (n m : Nat) (s sf : State) (log log' lg : List Ite
         cases ht : (pullOf s).text with
         | nil => rfl
         | cons x xs => simp [ht] at this
-      obtain ⟨⟨o, ho⟩, _, ⟨e, hec⟩⟩ := loop_grows (n + m + 1) (s.app S) log'
+      obtain ⟨⟨o, ho⟩, _, ⟨e, hec⟩, _⟩ := loop_grows (n + m + 1) (s.app S) log'
       refine ⟨⟨o, ?_⟩, ⟨e, ?_⟩⟩
       · rw [ho, ← h.1]; rfl
       · rw [hec, ← h.1]
@@ -503,6 +503,35 @@ example :
       = [1, 10, 2, 10]
     ∧ (specPull (fun _ t => if t.length < 4 then .incomplete else .error) 7 1 [1, 10, 2, 10, 3, 10]).2.1
       = [3, 10] := by decide
+
+/-- ★ **standard input is in blocking mode whenever a command runs, whatever mode it was inherited in**
+    (POSIX sh, STDIN: "if the standard input to sh is a FIFO or terminal device and is set to
+    non-blocking reads, then sh shall enable blocking reads on standard input").  `prepareInput` clears
+    the flag for a FIFO; after that the state at the start of every command (`atExec`), after any number
+    of steps of any command (`runK m`), and after any number of iterations of the read-eval loop
+    (`loop n`) has `nonblock = false` — the shell's own reads restore the mode they find, so nothing else
+    ever changes it.  Hence a command that is not part of the shell and reads the same descriptor
+    blocks until the next chunk arrives instead of failing with EAGAIN in a gap between chunks: what
+    follows on standard input stays available to it, whatever the timing of the chunks.  (A `probe`
+    records the flag of the state it runs in: `Out.probe … s.nonblock`.) -/
+theorem stdin_blocking_while_running (inherited : Bool) (script : List Byte) :
+    (prepareInput true { initState true script [] with nonblock := inherited }).nonblock = false
+    ∧ (∀ s : State, s.nonblock = false →
+        (atExec s).nonblock = false
+        ∧ (∀ m k, (runK m k s).1.nonblock = false)
+        ∧ (∀ n log, (loop n s log).1.nonblock = false))
+    ∧ (runPipe inherited script).1.nonblock = false := by
+  have hinv : ∀ s : State, s.nonblock = false →
+      (atExec s).nonblock = false ∧ (∀ m k, (runK m k s).1.nonblock = false)
+        ∧ (∀ n log, (loop n s log).1.nonblock = false) := by
+    intro s hs
+    exact ⟨hs, fun m k => by rw [(runK_grows m k s).2.2.2]; exact hs,
+      fun n log => by rw [(loop_grows n s log).2.2.2]; exact hs⟩
+  refine ⟨rfl, hinv, ?_⟩
+  exact (hinv _ rfl).2.2 _ _
+
+example : (prepareInput true { initState true [99, 97, 116, 10] [] with nonblock := true }).nonblock = false :=
+  rfl
 
 /-- ★ `P` is a complete prefix when its own run ends at end of input without any reader having met
     the end of the input in the middle of something (a command line, a `read`, a `cat`).  Then the
